@@ -110,7 +110,10 @@ def shape(e, roles=None, depth=20):
             ss = shape(some_v, roles, depth - 1)
             if "try(%s)" % xs in ss:
                 # match opt { Some(x) => f(x), None => d }  is  opt.map_or(d, f)
-                return "Option::map_or(%s,%s,\u03bb(%s))" % (xs, shape(none_v, roles, depth - 1), ss.replace("try(%s)" % xs, "p1"))
+                body_ = ss.replace("try(%s)" % xs, "p1")
+                m = _re.match(r"^([A-Za-z_][\w:<>]*)\(p1\)$", body_)
+                f_ = "fn:%s" % m.group(1) if m else "\u03bb(%s)" % body_
+                return "Option::map_or(%s,%s,%s)" % (xs, shape(none_v, roles, depth - 1), f_)
         return "var:%s" % short_ty(e.ty)
     if isinstance(e, Upvar):
         cap = e.captured()
@@ -408,7 +411,11 @@ def lambda_shape(owner, path, is_closure, depth=20):
             roles = {l: "p%d" % (l - first + 1) for l in range(first, b.arg_count + 1)}
             sh = shape(e, roles, 12)
             if len(sh) <= 240 and "..." not in sh:
-                out = "\u03bb(%s)" % sh
+                m = _re.match(r"^([A-Za-z_][\w:<>]*)\(p1\)$", sh)
+                if m and b.arg_count - first + 1 == 1:
+                    out = "fn:%s" % m.group(1)  # |x| f(x) is f
+                else:
+                    out = "\u03bb(%s)" % sh
     _LAMBDA_CACHE[key] = out
     return out
 
@@ -615,6 +622,14 @@ def facts_of_cond(c, roles=None):
         res.append(Fact("variant_not_in" if c.neg else "variant_in", shape(e.x, roles), tuple(sorted(c.values)), c))
     elif tr is not None:
         res.append(Fact("true" if tr else "false", shape(e, roles), None, c))
+        if isinstance(e, Call) and len(e.args) == 2 and nice(e.callee) in ("Range::contains", "RangeBounds::contains", "RangeInclusive::contains") and tr:
+            rng = e.args[0]
+            while isinstance(rng, (Named, Ref, Deref)):
+                rng = rng.x
+            if isinstance(rng, Agg) and rng.ak == "adt" and len(rng.ops) == 2 and nice(rng.adt or "").endswith("Range"):
+                xs = shape(e.args[1], roles)
+                res.append(Fact("Le", shape(rng.ops[0], roles), xs, c))   # (a..b).contains(&x): a <= x
+                res.append(Fact("Lt", xs, shape(rng.ops[1], roles), c))   # ... and x < b
         # comparisons made through the comparison traits (tuples, strings, ...): also as ordering facts
         if isinstance(e, Call) and len(e.args) == 2:
             op = CMP_CALLS.get(nice(e.callee))
